@@ -27,7 +27,7 @@ from common import coq_list, coq_z
 
 TAG = "C16_%d" % os.getpid()    # scratch-file prefix in coq/build, unique per process
 THEOREMS = ["C16_refines", "C16_no_lost_update", "C16_fresh_commit_visible", "C16_safe_delete",
-            "C16_child_calls", "C16_discard_keeps_other_revisions", "C16_safe_delete_gone", "C16_lookup_live", "C16_lookup_missing", "C16_membership", "C16_len", "C16_fault_total",
+            "C16_child_calls", "C16_lost_answer_add", "C16_lost_answer_commit", "C16_lost_answer_safe_delete", "C16_discard_keeps_other_revisions", "C16_safe_delete_gone", "C16_lookup_live", "C16_lookup_missing", "C16_membership", "C16_len", "C16_fault_total",
             "C16_unquote_quote", "C16_quote_inj", "C16_unquote_transform", "C16_transform_inj",
             "C16_doc_url_inj", "C16_key_agreement", "C16_routing", "C16_reserved_id_refuted", "C16_second_replica_refuted", "C16_example"]
 
@@ -40,6 +40,11 @@ ID_FAMILIES = [["https://e.org/sm", "https://e.org/sm/1", "https://e.org/sm?vers
                ["é", "é/ü", "éé"], ["urn:x:y", "urn:x:y#frag?q=1", "urn:x:y:z"]]
 FAULTS = [("status", 401), ("status", 404), ("status", 409), ("status", 412), ("status", 500), ("garbage",),
           ("garbage", "empty"), ("garbage", "truncated"), ("drop",)]     # non-JSON body: text, nothing, half a document
+# transports: "default" = the module's urllib3.PoolManager() (urllib3 repeats a request whose connection broke, and
+# reports MaxRetryError in the end); "noretry" = a PoolManager(retries=False), where urllib3's ProtocolError reaches
+# do_request itself (CouchDBConnectionError).  Under "noretry" also: the answer is lost AFTER the server has processed
+# the request.
+LOST = ("lost",)
 USER, PASSWORD = "verif", "s3cret"
 
 
@@ -192,6 +197,22 @@ def _run_sdk(case):
     store = couchdb.CouchDBObjectStore(fake.url, db)
     fake.arm()
     store.check_database(create=True)
+    if case.get("transport") == "noretry":
+        import urllib3
+        saved_pm = couchdb._http_pool_manager
+        couchdb._http_pool_manager = urllib3.PoolManager(retries=False)
+        try:
+            return _run_history(case, E, fake, db, store)
+        finally:
+            couchdb._http_pool_manager.clear()
+            couchdb._http_pool_manager = saved_pm
+    return _run_history(case, E, fake, db, store)
+
+
+def _run_history(case, E, fake, db, store):
+    from basyx.aas import model
+    from basyx.aas.backend import couchdb
+    from basyx.aas.adapter.json import json_serialization
     pool = case["pool"]
     kind_of = {}
     for ident, val in pool:
@@ -399,7 +420,29 @@ def _run_sdk(case):
             if exc is not None and not isinstance(exc, documented):
                 bad(k, kind, "undocumented-" + type(exc).__name__,
                     f"{kind} raised {type(exc).__name__} ({exc}), which is not a documented CouchDB error class / KeyError")
-            if hit:
+            if hit and fault[1][0] == "lost" and snap1 != snap0:
+                # the server processed the request, its answer was lost: the client cannot know the outcome and has to
+                # say so (transport error) - a KeyError ("duplicate" / "missing") or a conflict error claims that the
+                # server refused, although this very call changed the document
+                changed = {i for i in set(snap0) | set(snap1) if snap0.get(i) != snap1.get(i)}
+                d = snap1.get(x.id) if okind in ("add", "commit", "discard") else None
+                if not (d and changed == {x.id} and ((okind == "discard" and d[1]) or
+                                                     (okind != "discard" and not d[1] and json_val(d[2]["data"]) == pre["val"]))):
+                    bad(k, kind, "fault-changed-server", f"{kind} whose answer was lost changed the server otherwise "
+                        "than by the effect of the call")
+                if d and okind == "discard":
+                    ref.pop(x.id, None)
+                elif d:
+                    ref[x.id] = pre["val"]
+                if d:
+                    writer[x.id] = "client"
+                if isinstance(exc, (KeyError, couchdb.CouchDBConflictError)):
+                    bad(k, kind, "applied-write-reported-as-refused", f"the server applied the {kind} and its answer was "
+                        f"lost on the wire, but the call raised {type(exc).__name__} - a refusal (duplicate / missing / "
+                        "conflict) reported for a write that changed the server document")
+                elif exc is None:
+                    bad(k, kind, "fault-reported-as-success", f"{kind} whose answer was lost returned normally")
+            elif hit:
                 # a faulted request: an error of a documented class, never success; server unchanged
                 if snap1 != snap0:
                     bad(k, kind, "fault-changed-server", f"{kind} under fault {fault[1]} changed the server")
@@ -678,6 +721,7 @@ def gen_case(rng, maxlen):
     L = rng.randint(3, maxlen)
     nextval = 10
     pfault = rng.choice([0, 0, .15, .4])
+    transport = "noretry" if pfault and rng.random() < .5 else "default"
     for _ in range(L):
         kind = rng.choices(["add", "get", "modify", "commit", "update", "discard", "cid", "cobj", "len", "iter",
                             "extput", "extdel", "updatec", "commitc"], [18, 12, 11, 12, 6, 10, 3, 2, 3, 5, 10, 5, 5, 5])[0]
@@ -707,8 +751,13 @@ def gen_case(rng, maxlen):
         fault = None
         if kind in REQ_COUNT and rng.random() < pfault:
             fault = [rng.randrange(REQ_COUNT[kind]) if rng.random() < .6 else 0, list(rng.choice(FAULTS))]
+            if transport == "noretry" and rng.random() < .3:
+                fault[1] = list(LOST)
         ops.append([op, fault])
-    return {"pool": pool, "ops": ops}
+    case = {"pool": pool, "ops": ops}
+    if transport != "default":
+        case["transport"] = transport
+    return case
 
 
 def gen_scenario(rng):
@@ -845,6 +894,12 @@ def fault_matrix():
                     pre = pre + [[["discard", 0, 0], None]]
                 cases.append({"pool": pool, "ops": pre + [[op, [pos, list(ft)]], [["len"], None], [["iter"], None],
                                                           [op, None], [["get", "x/y z"], None]]})
+            for ft in (("drop",), LOST):     # without urllib3's own repetitions; answer lost after processing
+                pre = list(prefix) + ([[["discard", 0, 0], None]] if name == "add" else [])
+                cases.append({"pool": pool, "transport": "noretry",
+                              "ops": pre + [[op, [pos, list(ft)]], [["len"], None], [["iter"], None],
+                                            [op, None], [["get", "x/y z"], None], [["update", 0], None],
+                                            [["modify", 0, 6], None], [["commit", 0], None]]})
     return cases
 
 
@@ -877,6 +932,8 @@ Definition nf (o : op) : op * fspec := (o, None).
 Definition fs (o : op) (k c : Z) : op * fspec := (o, Some (n k, FStatus (n c))).
 Definition fg (o : op) (k : Z) : op * fspec := (o, Some (n k, FGarbage)).
 Definition fd (o : op) (k : Z) : op * fspec := (o, Some (n k, FDrop TOther)).
+Definition fdp (o : op) (k : Z) : op * fspec := (o, Some (n k, FDrop TProto)).
+Definition fl (o : op) (k : Z) : op * fspec := (o, Some (n k, FLost TProto)).
 Definition case (pool : list (string * Z)) (ops : list (op * fspec)) (h : Z) :=
   (map (fun p => (fst p, n (snd p))) pool, ops, h)."""
 
@@ -910,7 +967,7 @@ def coq_op(op):
     raise ValueError(op)
 
 
-def coq_step(op, fault, rows, ids):
+def coq_step(op, fault, rows, ids, noretry=False):
     """rows: the SDK's observation after this call - the model is told the resulting payload token of a `modify`
     (the changed object's) and of an `extput` (the document's), since the token stands for all parts"""
     if op[0] == "modify":
@@ -932,14 +989,16 @@ def coq_step(op, fault, rows, ids):
         return f"fs ({o}) {pos} {ft[1]}"
     if ft[0] == "garbage":
         return f"fg ({o}) {pos}"
-    return f"fd ({o}) {pos}"
+    if ft[0] == "lost":
+        return f"fl ({o}) {pos}"
+    return f"fdp ({o}) {pos}" if noretry else f"fd ({o}) {pos}"
 
 
 def coq_parts(case, trace):
     ids = [i for i, _ in case["pool"]]
     pool = coq_list(f"({cstr(i)}, {total(v, 0)})" for i, v in case["pool"])
     calls = [(o, f) for o, f in case["ops"] if o[0] != "gc"]
-    ops = coq_list(coq_step(o, f, rows, ids) for (o, f), rows in zip(calls, trace))
+    ops = coq_list(coq_step(o, f, rows, ids, case.get("transport") == "noretry") for (o, f), rows in zip(calls, trace))
     return pool, ops
 
 
@@ -988,7 +1047,7 @@ def run(chk):
             cases.append(json.load(open(os.path.join(corpus, fn))))
     fm = fault_matrix()
     cases += fm
-    chk.cov["fault_matrix"] = f"{len(fm)} directed cases: 12 operations x request position x 9 faults"
+    chk.cov["fault_matrix"] = f"{len(fm)} directed cases: 12 operations x request position x 9 faults, + dropped / lost answer on a pool without repetitions"
     for j in range(nseq):
         cases.append(gen_scenario(rng) if j % 4 == 3 else gen_case(rng, maxlen))
     chk.cov["scripted_scenarios"] = (f"{nseq // 4} histories: non-synchronising calls between the second actor's write "
@@ -1088,7 +1147,8 @@ def run(chk):
                        "obeys MVCC and writes well-formed AAS documents whose id equals the document id)",
                        "operations of the two actors are atomic with respect to each other (no interleaving inside "
                        "one SDK call)",
-                       "a dropped connection is dropped before the server processes the request"]
+                       "a dropped connection is dropped either before the server processes the request or (fault 'lost', "
+                       "run with a urllib3 pool without repetitions) after it has processed it"]
     chk.cov["level_scope"] = ("proof on the protocol model, PARTIAL: the server side of the theorems is CouchDB's documented "
                               "MVCC behaviour as a specification; a real CouchDB server and the network are not exercised "
                               "(the correspondence runs against a loopback fake)")
